@@ -26,7 +26,9 @@ MAXI64 = (1 << 63) - 1
 
 
 def U(k):
-    return uuidlib.UUID(int=0xA0000 + k)
+    # the high fields are deliberately not byte-palindromes: a UUID written
+    # with the wrong byte order (bytes_le) must differ from the right one
+    return uuidlib.UUID(int=(0x0123456789ABCDEF << 64) + 0xA0000 + k)
 
 
 NIL = uuidlib.UUID(int=0)
